@@ -182,6 +182,9 @@ class Effects:
                     for tt in ([t] if not isinstance(t, (ast.Tuple, ast.List)) else t.elts):
                         if isinstance(tt, (ast.Subscript, ast.Attribute)):
                             hit(tt.value, n, f"store `{norm(tt)} = ...`")
+                            if isinstance(n, ast.AugAssign) and isinstance(n.op, (ast.Add, ast.BitOr, ast.BitAnd, ast.Sub, ast.BitXor)):
+                                # x[k] += [...] extends the list stored at x[k] in place (and then stores it back)
+                                hit(tt, n, f"augmented assignment `{norm(n)[:70]}`")
                         elif isinstance(n, ast.AugAssign) and isinstance(tt, ast.Name):
                             # x += [...] mutates a list in place
                             hit(tt, n, f"augmented assignment `{norm(n)}`") if isinstance(n.op, (ast.Add, ast.BitOr, ast.BitAnd, ast.Sub)) else None
